@@ -8,6 +8,7 @@ import (
 	"math/rand"
 	"os"
 	"sort"
+	"strings"
 
 	"github.com/holiman/uint256"
 	rctypes "github.com/rigochain/rigo-go/ctrlers/types"
@@ -126,8 +127,11 @@ func (r *Replica) execOut(op *Op) string {
 type Variant struct {
 	Desc  string
 	Sc    *Scenario
-	Class string // kind of injected call (for stratified sampling)
-	Map   []int  // Map[i] = index in the base scenario of op i, or -1 for an injected op
+	Class string // kind of injected call and kind of gap (for stratified sampling)
+	Hot   int    // 2: the gap belongs to a block whose end hands new parameters over (or to the block after it); 1: stages something else
+	Edge  bool   // the gap is at a phase boundary of the block (not between two DeliverTx calls)
+	Block int64
+	Map   []int // Map[i] = index in the base scenario of op i, or -1 for an injected op
 }
 
 // withInjection returns a copy of base with ops inserted before base op index at.
@@ -249,6 +253,7 @@ func InjectionPool(base *Scenario, begin int, b *Builder, view *View, h int64, r
 		for _, from := range []int{4, 5, di} {
 			tx := newStake(kr, from, di, nonce(from), gas, price, "2e18")
 			mk("stake->"+dn, b.Sign(tx, from, chain))
+			pool[len(pool)-1].Self = from == di
 		}
 		for _, st := range view.Delegs[dn].Stakes {
 			oi := 0
@@ -439,12 +444,45 @@ func IsolationVariants(base *Scenario, rootA string, rng *rand.Rand, budget int,
 	views := map[int]*View{} // op index -> view after that op
 	rootP := tempRoot(rootA, "proj-")
 	var genesisView *View
+	// "hot" blocks: the end of the block stages something for the commit or for the consensus engine (parameters
+	// adopted, proposals settled, validator updates, stakes refunded) - the gaps of such a block and of the next one
+	// are where a mempool check or a query can meet staged state
+	hotH := map[int64]int{} // 2: the end of the block hands new governance parameters over to the commit; 1: stages something else
+	prevSig := ""
 	rp, err := Replay(base, "A", rootP, func(ev J) {
 		if post, ok := ev["post"].(J); ok {
 			if ev["ev"] == "Genesis" {
 				genesisView = ToView(post)
 			} else if op, ok := ev["op"].(int); ok {
 				views[op] = ToView(post)
+			}
+			if ev["ev"] == "EndBlock" {
+				h := int64(0)
+				if hv, ok := post["h"].(int); ok {
+					h = int64(hv)
+				}
+				pend, _ := post["govPending"].(J)
+				some, _ := pend["some"].(bool)
+				nups := 0
+				if resp, ok := ev["resp"].(J); ok {
+					if ups, ok := resp["valUpdates"].([]J); ok {
+						nups = len(ups)
+					}
+				}
+				np, _ := post["props"].(J)
+				nf, _ := post["fprops"].(J)
+				fz, _ := post["frozen"].([]J)
+				sig := fmt.Sprintf("%d/%d/%d", len(np), len(nf), len(fz))
+				if some {
+					hotH[h], hotH[h+1] = 2, 2
+				} else if nups > 0 || (prevSig != "" && sig != prevSig) {
+					for _, x := range []int64{h, h + 1} {
+						if hotH[x] < 1 {
+							hotH[x] = 1
+						}
+					}
+				}
+				prevSig = sig
 			}
 		}
 	}, ProjOpts{}, false)
@@ -479,7 +517,34 @@ func IsolationVariants(base *Scenario, rootA string, rng *rand.Rand, budget int,
 		for gap := i; gap <= end+1 && gap <= len(base.Ops); gap++ {
 			for pi, p := range pool {
 				v := withInjection(base, gap, fmt.Sprintf("block %d: %s %s %s before op %d", h, p.Kind, p.Tag, p.Path, gap), p)
-				v.Class = p.Kind + ":" + p.Tag + p.Path
+				gk := "mid-block"
+				switch {
+				case gap == i:
+					gk = "before-begin"
+				case gap == end:
+					gk = "before-commit"
+				case gap == end+1:
+					gk = "after-commit"
+				case gap == end-1:
+					gk = "before-end"
+				}
+				// category of the injected call: what it is, not whom it names
+				cat := p.Kind + ":" + p.Path
+				if p.Kind == "check" {
+					cat = "check:" + p.Tag
+					if i := strings.Index(p.Tag, "->"); i > 0 {
+						cat = "check:" + p.Tag[:i]
+					} else if strings.HasPrefix(p.Tag, "unstake ") {
+						cat = "check:unstake"
+					}
+					if p.Self {
+						cat += ":self"
+					}
+				}
+				v.Class = cat + "@" + gk
+				v.Hot = hotH[h]
+				v.Edge = gk != "mid-block"
+				v.Block = h
 				out = append(out, v)
 				_ = pi
 			}
@@ -499,29 +564,72 @@ func IsolationVariants(base *Scenario, rootA string, rng *rand.Rand, budget int,
 		// stratified: every kind of injected call (check of each tag, query of each path) is taken in turn, so that
 		// a small budget still exercises each of them at some gap
 		rng.Shuffle(len(out), func(i, j int) { out[i], out[j] = out[j], out[i] })
-		groups := map[string][]*Variant{}
-		var keys []string
-		for _, v := range out {
-			k := v.Class
-			if _, ok := groups[k]; !ok {
-				keys = append(keys, k)
+		pick := func(cands []*Variant, n int) []*Variant {
+			groups := map[string][]*Variant{}
+			var keys []string
+			for _, v := range cands {
+				k := v.Class
+				if _, ok := groups[k]; !ok {
+					keys = append(keys, k)
+				}
+				groups[k] = append(groups[k], v)
 			}
-			groups[k] = append(groups[k], v)
-		}
-		sort.Strings(keys)
-		var sel []*Variant
-		for len(sel) < budget {
-			took := false
-			for _, k := range keys {
-				if len(groups[k]) > 0 && len(sel) < budget {
-					sel = append(sel, groups[k][0])
-					groups[k] = groups[k][1:]
-					took = true
+			sort.Strings(keys)
+			rng.Shuffle(len(keys), func(i, j int) { keys[i], keys[j] = keys[j], keys[i] })
+			var sel []*Variant
+			for len(sel) < n {
+				took := false
+				for _, k := range keys {
+					if len(groups[k]) > 0 && len(sel) < n {
+						sel = append(sel, groups[k][0])
+						groups[k] = groups[k][1:]
+						took = true
+					}
+				}
+				if !took {
+					break
 				}
 			}
-			if !took {
-				break
+			return sel
+		}
+		var top, hot, cold []*Variant
+		seenTop := map[string]bool{}
+		for _, v := range out {
+			switch {
+			case v.Hot == 2 && v.Edge:
+				// parameter hand-over: every category of call at every phase boundary of that block and the next
+				k := fmt.Sprintf("%s#%d", v.Class, v.Block)
+				if !seenTop[k] {
+					seenTop[k] = true
+					top = append(top, v)
+				} else {
+					hot = append(hot, v)
+				}
+			case v.Hot >= 1:
+				hot = append(hot, v)
+			default:
+				cold = append(cold, v)
 			}
+		}
+		sel := pick(top, budget/2)
+		// then up to two thirds of the budget for the blocks that stage something, the rest elsewhere
+		sel = append(sel, pick(hot, budget*2/3-len(sel)/2)...)
+		if len(sel) > budget {
+			sel = sel[:budget]
+		}
+		sel = append(sel, pick(cold, budget-len(sel))...)
+		if len(sel) < budget {
+			taken := map[*Variant]bool{}
+			for _, v := range sel {
+				taken[v] = true
+			}
+			var rest []*Variant
+			for _, v := range out {
+				if !taken[v] {
+					rest = append(rest, v)
+				}
+			}
+			sel = append(sel, pick(rest, budget-len(sel))...)
 		}
 		out = sel
 	}
